@@ -188,7 +188,12 @@ SaveAck ==
         /\ devUsed' = IF keep # idealkeep THEN devUsed \cup {"c10_edits_during_save_lost"} ELSE devUsed
   /\ dirty' = SelectSeq(dirty, LAMBDA o : ~Settled(o))
   /\ inflight' = Tail(inflight) /\ busy' = (Len(inflight) > 1) /\ wire' = NextWire
-  /\ UNCHANGED <<phase, view, tracked, pval, shared, intent, after, cnt>>
+  \* ideal mechanism: an option that is taken care of reads as the value Tor now has - also when, while the save was in
+  \* flight, the list was edited in place and the option then assigned the saved value again (the edit shows in the view,
+  \* the assignment does not; without this the view would keep the overwritten edit)
+  /\ view' = IF "c10_edits_during_save_lost" \in Dev THEN view
+             ELSE [o \in Options |-> IF o \in SeqToSet(pend) /\ Settled(o) THEN pval[o] ELSE view[o]]
+  /\ UNCHANGED <<phase, tracked, pval, shared, intent, after, cnt>>
 
 SaveReject ==
   /\ busy
